@@ -234,6 +234,14 @@ func cmdCheck(args []string) int {
 	cfg := defaultConfig(*tier)
 	cfg.Workers = *workers
 	cfg.Tier = tierNum(*tier)
+	crossN := 4
+	if *tier == "thorough" {
+		crossN = 24
+	}
+	if v := os.Getenv("GOSYM_CROSS"); v != "" {
+		crossN, _ = strconv.Atoi(v)
+	}
+	cfg.Cross = interp.NewCrossState(crossN)
 
 	// native side: all harnesses of the packages involved are registered
 	allByPkg := map[string][]string{}
@@ -441,6 +449,9 @@ func cmdCheck(args []string) int {
 		fmt.Fprintln(os.Stderr, "no harness ran")
 		return 2
 	}
+	for _, d := range cfg.Cross.Disagree {
+		inconclusive = append(inconclusive, "solver disagreement on a goal query: "+d)
+	}
 	if *noNative {
 		inconclusive = append(inconclusive, "--no-native: nothing was validated against the real build")
 	}
@@ -501,10 +512,18 @@ func cmdCheck(args []string) int {
 			"queries":                       map[string]int{"sat": qs, "unsat": qu, "unknown": qk},
 			"solver":                        cfg.Solver,
 			"solver_s":                      round2(ss),
-			"load_ssa_s":                    round2(loadS),
-			"native_build_s":                nativeBuildS(nb),
-			"inconclusive":                  inconclusive,
-			"known_findings_hit":            knownLines,
+			"cross_solver_check": map[string]interface{}{
+				"what":               "goal queries answered unsat by the deciding solver, re-decided from scratch (same SMT-LIB text, fresh process) by z3 4.8.12 and cvc5 1.0; sample = first distinct goal labels of every harness; a sat answer makes the check inconclusive",
+				"labels_per_harness": cfg.Cross.PerHarness,
+				"confirmed_unsat":    cfg.Cross.Agree,
+				"unknown_or_timeout": cfg.Cross.Unknown,
+				"disagreements":      cfg.Cross.Disagree,
+				"wall_s":             round2(cfg.Cross.Wall.Seconds()),
+			},
+			"load_ssa_s":         round2(loadS),
+			"native_build_s":     nativeBuildS(nb),
+			"inconclusive":       inconclusive,
+			"known_findings_hit": knownLines,
 		},
 	}
 	os.MkdirAll(filepath.Join(outDir(), "evidence"), 0o755)
